@@ -21,6 +21,17 @@ theorem C19_call_offsets : ∀ a ∈ ptrArgs, ownOffset a.2.2.1 a.2.2.2 = true :
 theorem C19_call_offsets_present :
     100 ≤ (ptrArgs.filter fun a => a.1 == "blas.c").length ∧ 200 ≤ (ptrArgs.filter fun a => a.1 == "lapack.c").length := by decide +kernel
 
+/-- the 32-bit pivot work array: all of a wrapper's allocations have one element count, and every loop that copies pivots between the work array and `ipiv`
+runs over exactly that many entries (the argument checks bound `len(ipiv)` from below by the same count) -/
+def pivotOk (t : String × List String × List String) : Bool :=
+  match t.2.1 with
+  | [] => false
+  | a :: _ => t.2.1.all (· == a) && t.2.2.all (· == a)
+
+theorem C19_pivot_copy_bounds : ∀ t ∈ pivotLoops, pivotOk t = true := by decide +kernel
+
+theorem C19_pivot_loops_present : 15 ≤ pivotLoops.length ∧ 12 ≤ (pivotLoops.filter fun t => !t.2.2.isEmpty).length := by decide +kernel
+
 example : ownOffset "B" "oA" = false := by decide +kernel
 example : ownOffset "A" "oA + k*ldA" = true := by decide +kernel
 
